@@ -284,6 +284,34 @@ pub fn run(rep: &mut Report, rng: &mut Rng, thorough: bool) {
         }
         rep.case(format!("stream:{}", s.name), true, || detail("case"));
     }
+    // BCJ2: every proper prefix of each of the four streams of a valid encoding must be an error
+    for i in 0..(if thorough { 200 } else { 25 }) {
+        let mut r = rng.fork();
+        let len = r.range(1, 90) as usize;
+        let mut data = r.bytes(len);
+        for k in (0..len).step_by(3) {
+            if r.chance(1, 2) {
+                data[k] = *r.pick(&[0xE8u8, 0xE9, 0x0F]);
+            }
+        }
+        let conv = r.chance(2, 3);
+        let s = crate::bcj2::encode(&move |_| conv, &data);
+        rep.count("fmt.bcj2");
+        for which in 0..4 {
+            for k in 0..s[which].len() {
+                let mut m = s.clone();
+                m[which].truncate(k);
+                rep.evaluations += 1;
+                match crate::bcj2::real_decode(&m, data.len() as u64, &[], &[4096]) {
+                    Outcome::Err(..) => rep.count("trunc.err"),
+                    Outcome::Ok(out) => rep.fail("truncation-accepted:bcj2", &format!("stream {} (0 = MAIN, 1 = CALL, 2 = JUMP, 3 = RC) cut to {k} of {} bytes: BCJ2Reader returned Ok with {} of {} bytes", which, s[which].len(), out.len(), data.len()),
+                        json!({"format": "bcj2", "data_hex": hex(&data), "convert": conv, "stream": which, "cut": k, "case": i})),
+                    Outcome::Panic(p) => rep.fail("truncation-panic:bcj2", &p, json!({"format": "bcj2", "data_hex": hex(&data), "stream": which, "cut": k})),
+                }
+            }
+        }
+        rep.case(format!("bcj2:{}", size_class(len)), true, || json!({"format": "bcj2", "data_hex": hex(&data), "convert": conv}));
+    }
     // writers: short-writing sinks give the same bytes; sink errors are reported
     for i in 0..(if thorough { 400 } else { 60 }) {
         let mut r = rng.fork();
